@@ -317,6 +317,120 @@ static bool doIndexSet(Interp& I, const Step& s)
     return true;
 }
 
+// bigindex quasi K s_1..s_K m_1..m_K nsamples seed
+//
+// A set too large to enumerate: the product of per-variable subsets (m_k = bit mask of the allowed values of
+// variable k) over a domain of its own with up to 28 variables, so that it can have far more than 2^31
+// members.  Lexicographic rank, i-th member and cardinalities have closed forms (mixed radix numbers), which
+// are compared with evaluate() / getElement() at sampled points and with the stored cardinalities.
+static bool doBigIndex(Interp& I, const Step& s)
+{
+    if (s.size() < 4) { I.skip("bigindex-short"); return true; }
+    const bool quasi = toInt(s[1]) != 0;
+    const int K = toInt(s[2]);
+    if (K < 1 || K > 28 || int(s.size()) != 3 + 2 * K + 2) { I.skip("bigindex-shape"); return true; }
+    std::vector<int> sz(size_t(K) + 1), cnt(size_t(K) + 1);
+    std::vector<unsigned> mask(size_t(K) + 1);
+    std::vector<std::vector<int>> allowed(size_t(K) + 1);
+    for (int k = 1; k <= K; k++) {
+        sz[size_t(k)] = toInt(s[size_t(2 + k)]);
+        mask[size_t(k)] = unsigned(atol(s[size_t(2 + K + k)].c_str()));
+        if (sz[size_t(k)] < 1 || sz[size_t(k)] > 16) { I.skip("bigindex-size"); return true; }
+        for (int v = 0; v < sz[size_t(k)]; v++) if (mask[size_t(k)] & (1u << v)) allowed[size_t(k)].push_back(v);
+        cnt[size_t(k)] = int(allowed[size_t(k)].size());
+        if (!cnt[size_t(k)]) { I.skip("bigindex-empty"); return true; }
+    }
+    const int nsamples = toInt(s[size_t(3 + 2 * K)]);
+    Xo R(uint64_t(atol(s[size_t(4 + 2 * K)].c_str())) * 2654435761ULL + 17);
+    // n = product of the counts; weight[k] = product of the counts below level k
+    std::vector<long> weight(size_t(K) + 2, 1);
+    long n = 1;
+    for (int k = 1; k <= K; k++) {
+        weight[size_t(k)] = n;
+        if (n > (1L << 61) / cnt[size_t(k)]) { I.skip("bigindex-too-big"); return true; }
+        n *= cnt[size_t(k)];
+    }
+    domain* d = domain::createBottomUp(sz.data() + 1, unsigned(K));
+    bool ok = true;
+    std::string tag, msg;
+    auto bad = [&](const std::string& t, const std::string& m) { if (ok) { ok = false; tag = t; msg = m; } };
+    try {
+        policies ps(false), px(false);
+        if (quasi) ps.setQuasiReduced(); else ps.setFullyReduced();
+        forest* FS = forest::create(d, SET, range_type::BOOLEAN, edge_labeling::MULTI_TERMINAL, ps);
+        forest* FX = forest::create(d, SET, range_type::INTEGER, edge_labeling::INDEX_SET, px);
+        dd_edge S(FS);
+        FS->createConstant(true, S);
+        for (int k = 1; k <= K; k++) {
+            std::vector<rangeval> terms;
+            for (int v = 0; v < sz[size_t(k)]; v++) terms.push_back(rangeval(bool(mask[size_t(k)] & (1u << v))));
+            dd_edge c(FS);
+            FS->createEdgeForVar(k, false, terms.data(), c);
+            apply(INTERSECTION, S, c, S);
+        }
+        long card = -1;
+        apply(CARDINALITY, S, card);
+        if (card != n) bad("C11.cardinality", "CARDINALITY(long) of the product set = " + std::to_string(card) + ", closed form " + std::to_string(n));
+        dd_edge X(FX);
+        apply(CONVERT_TO_INDEX_SET, S, X);
+        I.R.labels.add("op.bigindex");
+        if (n > 2147483647L) I.R.labels.add("indexset_over_2^31_members");
+        // stored cardinality of the root
+        if (ok && X.getNode() > 0) {
+            const long got = long(FX->getIndexSetCardinality(X.getNode()));
+            if (got != n) bad("C15.cardinality", "the root of the index set stores cardinality " + std::to_string(got) + ", the set has " + std::to_string(n) + " members");
+        }
+        minterm m(FX);
+        auto rankOf = [&](const std::vector<int>& pos) { long r = 0; for (int k = 1; k <= K; k++) r += long(pos[size_t(k)]) * weight[size_t(k)]; return r; };
+        for (int it = 0; ok && it < nsamples; it++) {
+            // a member: position pos[k] within the allowed values of variable k
+            std::vector<int> pos(size_t(K) + 1, 0);
+            for (int k = 1; k <= K; k++) {
+                int c = cnt[size_t(k)];
+                pos[size_t(k)] = (it == 0) ? 0 : (it == 1) ? c - 1 : int(R.below(uint32_t(c)));
+            }
+            for (int k = 1; k <= K; k++) m.setVar(unsigned(k), allowed[size_t(k)][size_t(pos[size_t(k)])]);
+            rangeval rv;
+            X.evaluate(m, rv);
+            const long want = rankOf(pos);
+            if (rv.isPlusInfinity() || long(rv) != want) {
+                bad("C15.rank", "evaluate() of a member with lexicographic rank " + std::to_string(want) + " gives " + (rv.isPlusInfinity() ? std::string("+infinity") : std::to_string(long(rv))));
+                break;
+            }
+            // a non-member, if there is one: one variable at a value outside its subset
+            std::vector<int> cand;
+            for (int k = 1; k <= K; k++) if (cnt[size_t(k)] < sz[size_t(k)]) cand.push_back(k);
+            if (!cand.empty()) {
+                const int k = cand[R.below(uint32_t(cand.size()))];
+                int v = 0; while (mask[size_t(k)] & (1u << v)) v++;
+                m.setVar(unsigned(k), v);
+                X.evaluate(m, rv);
+                if (!rv.isPlusInfinity()) { bad("C15.rank", "evaluate() of a non-member gives " + std::to_string(long(rv)) + " instead of +infinity"); break; }
+            }
+            // the i-th member
+            long i = (it == 0) ? 0 : (it == 1) ? n - 1 : long(R.bits() % uint64_t(n));
+            minterm g(FX);
+            if (!X.getElement(i, g)) { bad("C15.getElement", "getElement(" + std::to_string(i) + ") fails for a set of " + std::to_string(n) + " members"); break; }
+            long rest = i;
+            for (int k = K; k >= 1; k--) {
+                const int p = int(rest / weight[size_t(k)]); rest %= weight[size_t(k)];
+                if (g.from(unsigned(k)) != allowed[size_t(k)][size_t(p)]) { bad("C15.getElement", "getElement(" + std::to_string(i) + ") returned the wrong member (variable " + std::to_string(k) + ")"); break; }
+            }
+        }
+        if (ok) {
+            minterm g(FX);
+            for (long i : {n, n + 1, -1L, 0x7fffffffffffffffL})
+                if (X.getElement(i, g)) { bad("C15.getElement", "getElement(" + std::to_string(i) + ") succeeds for a set of " + std::to_string(n) + " members"); break; }
+        }
+        I.R.labels.add("bigindex_samples", long(nsamples));
+    } catch (MEDDLY::error& er) {
+        bad("exception", std::string("bigindex: ") + er.getName());
+    }
+    domain::destroy(d);
+    if (!ok) return I.fail(tag, msg);
+    return true;
+}
+
 // ---------------------------------------------------------------------------------------
 // C13: variable reordering
 // ---------------------------------------------------------------------------------------
@@ -531,6 +645,7 @@ bool Interp::doExtra(const Step& s, bool& handled)
     const std::string& op = s[0];
     if (op == "un" && s.size() > 1 && s[1] == "INDEXSET") return doIndexSet(*this, s);
     if (op == "reorder") return doReorder(*this, s);
+    if (op == "bigindex") return doBigIndex(*this, s);
     if (op == "write") return doWrite(*this, s);
     if (op == "read") return doRead(*this, s);
     if (op == "roundtrip") return doRoundTrip(*this, s);
